@@ -595,3 +595,22 @@ Lemma nonvacuous :
   wf_ctx x86_64 /\ llong_size x86_64 = 8 /\
     const_eval (dm_of x86_64) (EBin BDiv (EUn UNeg (lit 7)) (ELit TUInt 2)) = Some (TUInt, 2147483644).
 Proof. unfold wf_ctx. vm_compute. repeat split; discriminate. Qed.
+
+(* ---- eval_binop, EnumType branch (operands of enumerated type are integers, C11 6.7.2.2): every operator it
+   installs is the operator of the integer branch ---- *)
+Definition enum_entry_agrees (kf : string * (Z -> Z -> result Z)) : Prop :=
+  match lookup (fst kf) binop_table with
+  | Some g => forall x y, snd kf x y = g x y
+  | None => False
+  end.
+Ltac streq_e :=
+  repeat match goal with
+  | |- context [String.eqb ?a ?b] =>
+      let r := eval vm_compute in (String.eqb a b) in change (String.eqb a b) with r
+  end.
+Lemma enum_table_agrees : Forall enum_entry_agrees binop_enum_table.
+Proof.
+  unfold binop_enum_table.
+  repeat (apply Forall_cons; [unfold enum_entry_agrees; cbn [fst snd]; cbv [lookup binop_table]; streq_e; cbv iota beta; intros; reflexivity|]).
+  apply Forall_nil.
+Qed.
